@@ -44,6 +44,10 @@ def pow2_axioms(terms):
     return ax
 
 
+_MUTATORS = {'append', 'extend', 'pop', 'reverse', 'popleft', 'appendleft', 'clear', 'insert', 'remove', 'sort', 'setdefault',
+             'update', 'add', 'discard', 'popitem', 'difference_update', 'intersection_update', 'symmetric_difference_update'}
+
+
 class Library:
     def __init__(self, it):
         self.it = it
@@ -598,6 +602,8 @@ class Library:
     def method(self, v, name):
         it = self.it
         N = lambda fn: Native(name, fn, needs_interp=False)
+        if it.barriers and isinstance(v, (VList, VDict, VSet)) and name in _MUTATORS:
+            it.barrier_obj(v, f'.{name}()')
         if isinstance(v, VList):
             L = v.items
             if name == 'append':
